@@ -75,7 +75,7 @@ func matchExpected(got []map[string]any, want []map[string]any) (unmatchedGot, u
 	return
 }
 
-func c03Case(comp bs.CompressionType, chunk int, dupKeys bool) CaseResult {
+func c03Case(comp bs.CompressionType, chunk int, dupKeys bool, twice ...bool) CaseResult {
 	var res CaseResult
 	cfg := quietConfig()
 	cfg.RowDataCompression = comp
@@ -97,6 +97,14 @@ func c03Case(comp bs.CompressionType, chunk int, dupKeys bool) CaseResult {
 			continue
 		}
 		rows = append(rows, r)
+		if len(twice) > 0 && twice[0] {
+			// the same row again, adjacent in its block (a second, separately built value)
+			b, _ := json.Marshal(r)
+			var again map[string]any
+			if json.Unmarshal(b, &again) == nil && again != nil {
+				rows = append(rows, again)
+			}
+		}
 	}
 	if err := putChunks(w, rows, chunk); err != nil {
 		res.Findings = append(res.Findings, fnd("setup-ingest", "%v", err))
@@ -162,6 +170,28 @@ func c03Case(comp bs.CompressionType, chunk int, dupKeys bool) CaseResult {
 		}
 	}
 	check("after mutation")
+	// independence inside one result set: overwrite the rows one by one; every row not yet
+	// overwritten must still be what it was
+	third := w.Query(nil)
+	tcopies := make([]any, len(third.Maps))
+	for i, m := range third.Maps {
+		tcopies[i] = deepCopy(m)
+	}
+	for i, m := range third.Maps {
+		scribble(m)
+		bad := false
+		for j := i + 1; j < len(third.Maps); j++ {
+			if !reflect.DeepEqual(third.Maps[j], tcopies[j]) {
+				res.Findings = append(res.Findings, fnd("c03-rows-share-state", "C03: overwriting returned row %s changed another row of the same result: now %s, was %s", canonMap(tcopies[i].(map[string]any)), canonMap(third.Maps[j]), canonMap(tcopies[j].(map[string]any))))
+				bad = true
+				break
+			}
+		}
+		res.Evals++
+		if bad {
+			break
+		}
+	}
 	res.Sample = map[string]any{"compression": string(comp), "chunk": chunk, "rows": len(rows), "dup_key_rows": dupKeys}
 	return res
 }
@@ -216,10 +246,14 @@ func init() {
 					cs = append(cs, Case{ID: fmt.Sprintf("roundtrip/%s/%d", c, ch), Run: func() CaseResult { return c03Case(c, ch, false) }})
 				}
 			}
+			for _, c := range comps {
+				c := c
+				cs = append(cs, Case{ID: fmt.Sprintf("roundtrip/%s/adjacent-duplicates", c), Run: func() CaseResult { return c03Case(c, 50, false, true) }})
+			}
 			cs = append(cs, Case{ID: "roundtrip/duplicate-keys", Run: func() CaseResult { return c03Case(bs.CompressionNone, 1000, true) }})
 			cs = append(cs, Case{ID: "nil-row", Run: c03NilRow})
 			return cs
 		},
-		Rule: "every row of the row alphabet that encoding/json decodes into an object, on every compression and two block splits; returned maps are paired one-to-one with json.Unmarshal(json.Marshal(row)) by reflect.DeepEqual; independence: retained rows are compared with deep copies after another result set was overwritten recursively and four further queries reused the scan buffers",
+		Rule: "every row of the row alphabet that encoding/json decodes into an object, on every compression and two block splits; returned maps are paired one-to-one with json.Unmarshal(json.Marshal(row)) by reflect.DeepEqual; independence: retained rows are compared with deep copies after another result set was overwritten recursively and four further queries reused the scan buffers; the rows of one result set are overwritten one at a time and all not yet overwritten rows must stay unchanged; the alphabet is also stored with every row twice in a row (byte-identical neighbours)",
 	}
 }
